@@ -32,6 +32,7 @@ def check(run):
     prog = run.prog
     from . import common as _common
     _common.fresh_hits(run, "C14")
+    _common.no_unsafe_cuts(run, "C14", "R0-no-cut", floor=3)
     A = sites.analysis(prog)
     xm = prog.mod("decoders.xml")
     # ------------------------------------------------------------------ XML
